@@ -119,7 +119,7 @@ def Dict(**f):
     return TDict(**f)
 
 
-def Obj(cls, **f):
+def ObjT(cls, **f):
     return TObj(cls, **f)
 
 
